@@ -64,6 +64,26 @@ def generate(seed, tier):
         params, inits = G.instantiate_params(random.Random(cs), meta, prog)
         cases.insert(3 * have, {"id": f"gen-{cs}", "text": program_str(prog), "ast": prog.to_json(), "params": K.frac_enc(params),
                                 "inits": K.frac_enc(inits), "N": 6, "settings": {"type_fp_iterations": 100}, "features": feats + ["fp_iter:100"]})
+    # backward copy chains ending in an unbounded variable (w = z; z = y; y = x; x = x + 1 {1/2} x) under small fixed-point budgets:
+    # every chain variable is unbounded, but each learns it one typer round later than its source
+    from ..lang.parser import parse_program
+    nchain = 8 if tier == "quick" else 80
+    for j in range(nchain):
+        cs = K.harness_seed(seed, ID + "-chain", j)
+        r = random.Random(cs)
+        depth = r.choice([3, 4, 4, 5, 6])
+        names = ["w", "z", "y", "v", "u", "t"][:depth] + ["x"]
+        src = r.choice(["x = x + 1 {1/2} x", "x = x + 1", "x = x + c"])
+        lines = [f"{a_} = {b_}" for a_, b_ in zip(names, names[1:])] + [src]
+        init = "\n".join(f"{v} = 0" for v in names) + "\nc = 0\ns = 0"
+        text = f"{init}\nwhile true:\n    c = Bernoulli(1/2)\n" + "".join(f"    {l}\n" for l in lines) + "    if w == 1:\n        s = s + 1\n    end\nend\n"
+        try:
+            prog = parse_program(text)
+        except Exception:
+            continue
+        cfg = {"type_fp_iterations": r.choice([1, 1, 2, 3])}
+        cases.insert(5 * (j + 1), {"id": f"chain-{cs}", "text": text, "ast": prog.to_json(), "params": K.frac_enc({}), "inits": K.frac_enc({}),
+                                   "N": depth + 4, "settings": cfg, "features": ["designed:backward-copy-chain-to-unbounded", f"fp_iter:{cfg['type_fp_iterations']}"]})
     for c in CORPUS.cases(seed, tier, 30 if tier == "quick" else 300, ID, N=5):
         c["settings"] = {}
         cases.append(c)
